@@ -1079,7 +1079,23 @@ func c19Trees(c *mon.Ctx) {
 				return
 			}
 			out := filepath.Join(root, "out")
-			if err := modzip.Unzip(out, m, zpath); err != nil {
+			if r.IntN(8) == 0 {
+				// what an earlier, failed extraction may have left: files below subdirectories only.
+				// "If dir exists, it must be empty": a refusal is fine; a success must still give the zip's hash.
+				stale := filepath.Join(out, "zz-old", "sub")
+				if err := os.MkdirAll(stale, 0o777); err == nil {
+					os.WriteFile(filepath.Join(stale, "stale.txt"), []byte("left by an earlier attempt\n"), 0o644)
+				}
+				if err := modzip.Unzip(out, m, zpath); err != nil {
+					c.Class("modzip:unzip-into-leftovers-refused")
+					os.RemoveAll(out)
+				} else {
+					c.Class("modzip:unzip-into-leftovers-succeeded")
+				}
+			}
+			if _, serr := os.Stat(out); serr == nil {
+				// extracted over leftovers: judged below like any other extraction
+			} else if err := modzip.Unzip(out, m, zpath); err != nil {
 				c.Class("modzip:unzip-rejected-skipped") // C05's business, not this property's
 				c.Sample("modzip-unzip-rejected", 2, wit(map[string]any{"err": err.Error()}))
 				return
